@@ -745,6 +745,14 @@ func (r *seqRun) execLoader(line string) {
 	}
 	ld := scriptLoader{r}
 	ctx := context.Background()
+	if strings.HasSuffix(t[0], "~") {
+		// the caller's context is already cancelled: the cache hands loaders a context.WithoutCancel, so the operation
+		// must behave exactly as with a live context (same transcript, same judge)
+		cctx, cancel := context.WithCancel(ctx)
+		cancel()
+		ctx = cctx
+		t[0] = strings.TrimSuffix(t[0], "~")
+	}
 	defer func() { r.clock.hook = nil }()
 	c := r.cache
 	switch t[0] {
@@ -884,7 +892,7 @@ func runScriptLocked(id string, script []string, out *bufio.Writer, mu *sync.Mut
 			r.build()
 			built = true
 		}
-		switch t[0] {
+		switch strings.TrimSuffix(t[0], "~") {
 		case "load", "bulkget", "refresh", "bulkrefresh", "runexec":
 			r.execLoader(line)
 		default:
